@@ -124,7 +124,9 @@ def case_root(c, rs, tol):
     # with a relative ridge the root value of a null direction is (eps * lambda_hat)^(-1/p) and inherits
     # the power iteration's stopping slack (lambda_hat in [lambda_max (1 - 1e-4), lambda_max]); the
     # effect of confusing a null direction with padding is of order 1
-    tol_c = max(tol, 2e-4) if (deficient and rel) else tol
+    # (the same slack reaches every direction whose eigenvalue is not far above the ridge - observed 4.4e-7 on a
+    # full-rank spectrum against the 1e-6 of the absolute-ridge cases - so it applies to all relative-ridge cases)
+    tol_c = max(tol, 2e-4) if rel else tol
     Q = orth(rs, ps)
     M = np.eye(d) * 7.0 + rs.standard_normal((d, d))     # junk in the padding region
     M = M + M.T
